@@ -380,6 +380,8 @@ def judge(case, rec):
     resp = zz9enc.encode(sv, q)
     cB = lib.cube(resp, case["base"], case["population"], case["mask_size"])
     cT = lib.cube(resp, case["full"], case["population"], case["mask_size"])
+    for _p in cT.partitions:
+        lib.warm(_p, case.get("warmup"))
     dims = apparent_dims(sv, q)
     rec.event("shape=" + "x".join(case["shape"]))
     for name in ("rows_dimension", "columns_dimension"):
